@@ -11,7 +11,13 @@ from ..packs import ord_pack
 from ..report import Ctx
 
 
+#: obligations whose failure contradicts the property (rule, construct pattern, why); every other failure is 'not recognised'
+POSITIVE: list[tuple[str, str, str]] = [
+]
+
+
 def run(ctx: Ctx) -> None:
+    ctx.positive_table = list(POSITIVE)
     prog = ctx.prog
     ctx.rule('C03.R1', 'canonical order (ORD): every positional vector of per-parameter data (values, bounds, names zipped with values, lines of the iteration '
              'file, rows of the results) is built by iterating free_betas.names / fixed_betas.names of the matching kind (sorted), never the dictionary of '
